@@ -2,7 +2,8 @@
 import t2t, corr, semrun
 
 OBLIGATIONS = ['Yalafi.C19_addUnknown_spec', 'Yalafi.C19_addUnknown_nodup', 'Yalafi.C19_addUnknown_math', 'Yalafi.C19_addUnknown_prefix',
-               'Yalafi.C19_tex2txt_nodup', 'Yalafi.C19_tex2txt_nodup_current', 'Yalafi.C19_unknowns_complete']
+               'Yalafi.C19_tex2txt_nodup', 'Yalafi.C19_tex2txt_nodup_current', 'Yalafi.C19_unknowns_complete',
+               'Yalafi.C19_unknowns_complete_current', 'Yalafi.C19_example_current']
 
 def judge(case, res, exp):
     if res['outcome'] != 'ok':
